@@ -21,11 +21,13 @@ use celestia_types::hash::Hash;
 use celestia_types::test_utils::{ExtendedHeaderGenerator, unverify};
 use cid::Cid;
 use lumina_node::store::{
-    BlockRanges, BlockRangesError, InMemoryStore, RedbStore, SamplingMetadata, Store, StoreError,
+    BlockRanges, BlockRangesError, EitherStore, InMemoryStore, RedbStore, SamplingMetadata, Store, StoreError,
     StoreInsertionError,
 };
 use tendermint_proto::Protobuf;
 use verif_harness::*;
+
+type Real = EitherStore<InMemoryStore, RedbStore>;
 
 #[derive(Clone, Copy, PartialEq, Eq, Debug)]
 pub enum Mode {
@@ -37,8 +39,9 @@ pub enum Mode {
 pub struct Hist {
     pub mode: Mode,
     rt: tokio::runtime::Runtime,
-    mem: InMemoryStore,
-    redb: RedbStore,
+    /// both real stores are driven through `EitherStore` (either_store.rs: pure delegation)
+    mem: Real,
+    redb: Real,
     /// header pool of the current history
     pool: Vec<ExtendedHeader>,
     /// does pool[i] survive encode/decode (= pass `validate`)?
@@ -120,8 +123,8 @@ impl Hist {
         Hist {
             mode,
             rt,
-            mem: InMemoryStore::new(),
-            redb,
+            mem: EitherStore::Left(InMemoryStore::new()),
+            redb: EitherStore::Right(redb),
             pool: vec![],
             valid: vec![],
             pool_of_bytes: HashMap::new(),
@@ -139,8 +142,8 @@ impl Hist {
     }
 
     fn reset(&mut self) {
-        self.mem = InMemoryStore::new();
-        self.redb = self.rt.block_on(RedbStore::in_memory()).unwrap();
+        self.mem = EitherStore::Left(InMemoryStore::new());
+        self.redb = EitherStore::Right(self.rt.block_on(RedbStore::in_memory()).unwrap());
         *self.last_dump.borrow_mut() = [None, None];
         self.mutations.set(0);
         self.pool.clear();
